@@ -9,6 +9,7 @@ use crate::srv;
 use compact_jwt::JwsCompact;
 use kanidm_proto::internal::UatPurpose;
 use kanidm_proto::v1::{AuthCredential, AuthIssueSession, AuthMech, AuthStep};
+use kanidmd_lib::entry::{Entry, EntryInit, EntryNew};
 use kanidmd_lib::idm::account::DestroySessionTokenEvent;
 use kanidmd_lib::idm::authentication::{AuthState, ClientAuthInfo, ReauthRequest};
 use kanidmd_lib::idm::server::IdmServerTransaction;
@@ -32,6 +33,8 @@ pub enum Op {
     /// the same but the delayed session record is lost before it is written
     LoginLost,
     LoginAnon,
+    /// log the person in through an OAuth2 trust provider (privileged session requested?)
+    LoginTrust(bool),
     /// re-authenticate the session of token k
     Reauth(usize),
     /// revoke the login session of token k
@@ -77,6 +80,8 @@ pub struct Cfg {
     pub changepw: bool,
     /// deleting and reviving the accounts
     pub lifecycle: bool,
+    /// the person can also log in through an OAuth2 trust provider
+    pub trust: bool,
     pub ticks: Vec<u64>,
     pub props: BTreeSet<&'static str>,
 }
@@ -118,6 +123,32 @@ impl Tokens {
         }
         if let Err(e) = idm.set_primary(ct, person_uuid(P0), PW_GOOD, false) {
             die("set password", e);
+        }
+        if cfg.trust {
+            let prov = Uuid::from_u128(0x7c33_0000_0000_4000_8000_0000_0000_0001);
+            let r = idm.write(srv::t(12), |w| {
+                let mut e: Entry<EntryInit, EntryNew> = Entry::new();
+                e.add_ava(Attribute::Class, EntryClass::Object.to_value());
+                e.add_ava(Attribute::Class, EntryClass::OAuth2Client.to_value());
+                e.add_ava(Attribute::Uuid, Value::Uuid(prov));
+                e.add_ava(Attribute::Name, Value::new_iname("trustprovider"));
+                e.add_ava(Attribute::OAuth2ClientId, Value::new_utf8s("kanidm-at-provider"));
+                e.add_ava(Attribute::OAuth2ClientSecret, Value::new_utf8s("provider-secret"));
+                for (a, u) in [(Attribute::OAuth2AuthorisationEndpoint, "https://provider.example.net/authorise"), (Attribute::OAuth2TokenEndpoint, "https://provider.example.net/token"), (Attribute::OAuth2TokenIntrospectEndpoint, "https://provider.example.net/introspect")] {
+                    e.add_ava(a, Value::new_url_s(u).ok_or(OperationError::InvalidValueState)?);
+                }
+                e.add_ava(Attribute::OAuth2RequestScopes, Value::new_oauthscope("openid").ok_or(OperationError::InvalidValueState)?);
+                w.qs_write.internal_create(vec![e])?;
+                w.qs_write.internal_modify_uuid(person_uuid(P0), &ModifyList::new_list(vec![
+                    Modify::Present(Attribute::Class, EntryClass::OAuth2Account.to_value()),
+                    Modify::Present(Attribute::OAuth2AccountProvider, Value::Refer(prov)),
+                    Modify::Present(Attribute::OAuth2AccountUniqueUserId, Value::new_utf8s("p0@provider")),
+                    Modify::Present(Attribute::OAuth2AccountUniqueUserSub, Value::new_utf8s("p0-at-the-provider")),
+                ]))
+            });
+            if let Err(e) = r {
+                die("oauth2 trust provider", e);
+            }
         }
         Tokens { idm, cfg, now: 1000, toks: Vec::new(), pw: PW_GOOD, expired: [false; 2], notyet: false, deleted: [false; 2], accepted: 0, pending: Vec::new(), tainted: false }
     }
@@ -202,6 +233,45 @@ impl Tokens {
             Ok(Some(tok)) => {
                 let _ = self.idm.pump(ct);
                 match self.record_uat(tok, false, true, format!("anonymous@{}", self.now)) {
+                    Ok(()) => "ok".into(),
+                    Err(e) => format!("machinery:{e}"),
+                }
+            }
+            Ok(None) => "denied".into(),
+            Err(e) => format!("err:{e:?}"),
+        }
+    }
+
+    /// the whole external exchange of an OAuth2 trust login, with a provider that answers
+    /// favourably at every step
+    fn login_trust(&mut self, privileged: bool) -> String {
+        use kanidm_proto::oauth2::{AccessTokenIntrospectResponse, AccessTokenResponse, AccessTokenType, IssuedTokenType};
+        use kanidmd_lib::idm::authentication::{AuthCredential as ICred, AuthExternal};
+        use kanidmd_lib::idm::event::{AuthEvent, AuthEventStep, AuthEventStepCred};
+        let ct = srv::t(self.now);
+        let r = (|| -> Result<Option<JwsCompact>, OperationError> {
+            let r = self.idm.auth_step(None, AuthStep::Init2 { username: "p0".into(), issue: AuthIssueSession::Token, privileged }, ct)?;
+            let sid = r.sessionid;
+            let r = self.idm.auth_step(Some(sid), AuthStep::Begin(AuthMech::OAuth2Trust), ct)?;
+            let AuthState::External(AuthExternal::OAuth2AuthorisationRequest { request, .. }) = r.state else { return Ok(None) };
+            let cred = |c: ICred| AuthEvent { ident: None, step: AuthEventStep::Cred(AuthEventStepCred { sessionid: sid, cred: c }) };
+            let r = self.idm.auth_event(&cred(ICred::OAuth2AuthorisationResponse { code: "code-from-the-provider".into(), state: request.state.clone() }), ct)?;
+            let AuthState::External(AuthExternal::OAuth2AccessTokenRequest { .. }) = r.state else { return Ok(None) };
+            let response = AccessTokenResponse { access_token: "provider-access-token".into(), token_type: AccessTokenType::Bearer, issued_token_type: Some(IssuedTokenType::AccessToken), expires_in: 300, refresh_token: Some("provider-refresh-token".into()), scope: ["openid".to_string()].into_iter().collect(), id_token: None };
+            let r = self.idm.auth_event(&cred(ICred::OAuth2AccessTokenResponse { response }), ct)?;
+            let AuthState::External(AuthExternal::OAuth2AccessTokenIntrospectionRequest { .. }) = r.state else { return Ok(None) };
+            let response = AccessTokenIntrospectResponse { active: true, sub: Some("p0-at-the-provider".into()), ..Default::default() };
+            let r = self.idm.auth_event(&cred(ICred::OAuth2AccessTokenIntrospectResponse { response }), ct)?;
+            Ok(match r.state {
+                AuthState::Success(t, _) => Some(*t),
+                _ => None,
+            })
+        })();
+        match r {
+            Ok(Some(tok)) => {
+                let _ = self.idm.pump(ct);
+                // a trust login is one of the login types that are always read-only
+                match self.record_uat(tok, true, true, format!("oauth2-trust(privileged={privileged})@{}", self.now)) {
                     Ok(()) => "ok".into(),
                     Err(e) => format!("machinery:{e}"),
                 }
@@ -320,6 +390,10 @@ impl World for Tokens {
             v.push(Op::Login(true));
             v.push(Op::LoginLost);
             v.push(Op::LoginAnon);
+            if self.cfg.trust {
+                v.push(Op::LoginTrust(true));
+                v.push(Op::LoginTrust(false));
+            }
             if self.cfg.api {
                 v.push(Op::ApiToken(false, false));
                 v.push(Op::ApiToken(true, false));
@@ -376,6 +450,7 @@ impl World for Tokens {
             Op::Login(p) => self.login(*p, true),
             Op::LoginLost => self.login(false, false),
             Op::LoginAnon => self.login_anon(),
+            Op::LoginTrust(p) => self.login_trust(*p),
             Op::Reauth(k) => self.reauth(*k),
             Op::Logout(k) => {
                 let session = match &self.toks[*k].kind {
